@@ -438,6 +438,10 @@ impl Engine for C12 {
             ));
         }
         v.push(Phase::new(
+            "corpus with one token of the full alphabet inserted at one site",
+            p_ins(if thorough { 100_000 } else { 40 }),
+        ));
+        v.push(Phase::new(
             "syntactically valid programs: kind-agnostic expressions of <= 2 constructors x 27 contexts",
             json!({"space": "programs", "k": 2}),
         ));
